@@ -42,10 +42,10 @@ func transferProfile(tier Tier) *explore.Profile {
 			acts = append(acts, freezeMenu(w, o, false)...)
 			// metadata updates by the role holder on the copies it kept (no balance changes; they
 			// must not disturb later deliveries and refunds)
-			if held(w, uni.A0, "S\x01") > 0 {
+			if held(w, uni.A0, tS1) > 0 {
 				acts = append(acts, uni.Call(uni.A0, uni.A0, vmcommon.BuiltInFunctionESDTNFTUpdateAttributes, uni.S, uni.Big(1), []byte("b")))
 			}
-			if held(w, uni.A0, "S\x02") > 0 {
+			if held(w, uni.A0, tS2) > 0 {
 				acts = append(acts, uni.Call(uni.A0, uni.A0, vmcommon.BuiltInFunctionESDTNFTAddURI, uni.S, uni.Big(2), []byte("v")))
 			}
 			return acts
@@ -71,7 +71,31 @@ func RunLedger(property string, tier Tier, profiles []*explore.Profile, require 
 	exhaustive := true
 	var perProfile []map[string]interface{}
 	var samples []interface{}
+	// second pass: the same profiles one level shallower over token identifiers of realistic shape
+	// and length (FNGB-a1b2c3, SFTCOLL-0a0b0c, ...; the aliasing pair is then F||01)
+	type pass struct {
+		long bool
+		p    *explore.Profile
+	}
+	var passes []pass
 	for _, p := range profiles {
+		passes = append(passes, pass{false, p})
+	}
+	for _, p := range profiles {
+		if p.Name == "high-nonce" || p.Name == "role-product" || p.Name == "create-product" {
+			continue
+		}
+		q := *p
+		q.Name = p.Name + "+long-ids"
+		if q.Depth > 1 {
+			q.Depth--
+		}
+		passes = append(passes, pass{true, &q})
+	}
+	defer useLongIDs(false)
+	for _, ps := range passes {
+		p := ps.p
+		useLongIDs(ps.long)
 		r, err := explore.Run(p)
 		if err != nil {
 			o.SelfCheck = append(o.SelfCheck, "profile "+p.Name+": "+err.Error())
